@@ -259,6 +259,7 @@ def _worker(args):
                                             for i in range(lo, hi)]
     for scn in scns:
         case = {k: v for k, v in scn.items() if not k.startswith("_")}
+        common.note_inflight(case)
         try:
             recs = LL.run(scn)
         except S.SolverBudget:
@@ -542,8 +543,7 @@ def run(ck, n, randsz_p, extra=None):
     if len(chunks) == 1:
         results = [_worker(chunks[0])]
     else:
-        with multiprocessing.get_context("fork").Pool(len(chunks)) as pool:
-            results = pool.map(_worker, chunks)
+        results = common.pmap(_worker, chunks)
     for r in results:
         for k, v in r["counts"].items():
             ck.count(k, v)
